@@ -28,6 +28,8 @@ class RedisMessageBroker(MessageBrokerT):
         self.dsn = dsn
         self.conn: Redis[bytes] = Redis.from_url(dsn)
         self._priorities = parse_priorities_distribution(self.priorities_distribution)
+        # messages handed out by consumers of this broker, which are not settled yet: id -> (consumer, key)
+        self._unsettled: dict[str, tuple[_RedisConsumer, RoutingKeyT]] = {}
 
     async def connect(self) -> None:
         await self.conn.ping()
@@ -88,6 +90,7 @@ class RedisMessageBroker(MessageBrokerT):
 
     async def ack(self, key: RoutingKeyT) -> None:
         logger.debug("Acking message ({routing_key}).", extra={"routing_key": key})
+        self._unsettled.pop(key.id_, None)
         async with self.conn.pipeline(transaction=True) as pipe:
             pipe.delete(mnc(key))
             self.__unmark_processing(key=key, pipe=pipe)
@@ -95,6 +98,7 @@ class RedisMessageBroker(MessageBrokerT):
 
     async def nack(self, key: RoutingKeyT) -> None:
         logger.debug("Nacking message ({routing_key}).", extra={"routing_key": key})
+        self._unsettled.pop(key.id_, None)
         async with self.conn.pipeline(transaction=True) as pipe:
             self.__mark_dead(key, pipe)
             self.__unmark_processing(key, pipe)
@@ -102,6 +106,7 @@ class RedisMessageBroker(MessageBrokerT):
 
     async def reject(self, key: RoutingKeyT) -> None:
         logger.debug("Rejecting message ({routing_key}).", extra={"routing_key": key})
+        self._unsettled.pop(key.id_, None)
 
         raw_params: list[bytes | None] = await self.conn.hmget(
             mnc(key),
@@ -137,6 +142,7 @@ class RedisMessageBroker(MessageBrokerT):
         params: ParametersT | None = None,
     ) -> None:
         logger.debug("Requeueing message ({routing_key}).", extra={"routing_key": key})
+        self._unsettled.pop(key.id_, None)
         if params is None:  # pragma: no cover
             params = self.PARAMETERS_CLASS()
         async with self.conn.pipeline(transaction=True) as pipe:
